@@ -352,7 +352,19 @@ def call_ext(it: Any, f: ExtV, args: List[Any], kwargs: Dict[str, Any], node: An
         known_bits = {"torch.float16": 16, "torch.half": 16, "torch.bfloat16": 16, "torch.float32": 32, "torch.float": 32, "torch.float64": 64, "torch.double": 64, "torch.int8": 8, "torch.uint8": 8, "torch.int16": 16, "torch.int32": 32, "torch.int64": 64}
         dn_ = dt_.name if isinstance(dt_, ExtV) else None
         bits_ = known_bits.get(dn_) if dn_ in known_bits else sp.Symbol(f"bits({A.fmt(A._term(dt_))})", integer=True, positive=True)
-        return Obj("torch.finfo", attrs={"bits": bits_, "dtype": dt_}, term=T("call", (name, (("type", A._term(dt_)),))))
+        attrs_ = {"bits": bits_, "dtype": dt_}
+        fin_ = {"torch.float16": (10, 5), "torch.half": (10, 5), "torch.bfloat16": (7, 8), "torch.float32": (23, 8), "torch.float": (23, 8), "torch.float64": (52, 11), "torch.double": (52, 11)}
+        if name == "torch.finfo":
+            if dn_ in fin_:
+                mant_, expo_ = fin_[dn_]
+                emax_ = 2 ** (expo_ - 1) - 1
+                attrs_.update(eps=sp.Rational(1, 2**mant_), max=num(sp.Integer(2) ** emax_ * (2 - sp.Rational(1, 2**mant_))), tiny=sp.Rational(1, 2 ** (emax_ - 1)), smallest_normal=sp.Rational(1, 2 ** (emax_ - 1)))
+                attrs_["min"] = -attrs_["max"]
+            else:
+                tag_ = A.fmt(A._term(dt_))
+                attrs_.update({k_: sp.Symbol(f"finfo_{k_}({tag_})", positive=True) for k_ in ("eps", "max", "tiny", "smallest_normal", "resolution")})
+                attrs_["min"] = -attrs_["max"]
+        return Obj("torch.finfo", attrs=attrs_, term=T("call", (name, (("type", A._term(dt_)),))))
     if name in ("torch.utils.checkpoint.checkpoint", "torch.utils.checkpoint.checkpoint.checkpoint") and args:
         # activation checkpointing: checkpoint(fn, *args, **kw) computes fn(*args, **kw) (recomputed in backward);
         # its own keywords are not forwarded
